@@ -16,6 +16,9 @@ Extra == {[s EXCEPT !.unauth = u] : s \in HonestBase, u \in {"m1", "m2"}} \cup {
          \* some content) hung onto a signer info made with another key, and onto an honest one: what nobody signed decides nothing
          \cup {[s EXCEPT !.sigKey = "k3", !.unauth = u] : s \in HonestBase, u \in {"nested_m1", "nested_m2"}}
          \cup {[s EXCEPT !.unauth = "nested_m2"] : s \in HonestBase}
+         \* a second messageDigest attribute appended to the signed attributes of a genuine signer info (the signature is over the attributes as
+         \* the signer made them, not as they now appear)
+         \cup {[s EXCEPT !.order = d, !.sigOver = "attrs_canonical"] : s \in HonestBase, d \in {"dup_m1", "dup_m2"}}
          \* the CA-issued certificate: honest signer infos naming its issuer + serial, and the same naming its subject + serial instead
          \cup {HonestSigner("Ca", ct, m) : ct \in {"data", "spc"}, m \in {"m1", "m2"}}
          \cup {[HonestSigner("Ca", ct, m) EXCEPT !.sid = "CaSub"] : ct \in {"data", "spc"}, m \in {"m1", "m2"}}
@@ -26,13 +29,22 @@ Pair == {HonestSigner("A", "spc", "m1"), HonestSigner("A", "spc", "m2"), HonestS
          [HonestSigner("A", "spc", "m2") EXCEPT !.sigKey = "k3"], [HonestSigner("A", "spc", "m1") EXCEPT !.sigOver = "other_attrs"],
          [HonestSigner("A", "spc", "m1") EXCEPT !.attrs = "none", !.sigOver = "content"],
          [HonestSigner("B", "spc", "m2") EXCEPT !.order = "swapped"],
-         [HonestSigner("A", "spc", "m1") EXCEPT !.unauth = "m2"], [HonestSigner("A", "spc", "m2") EXCEPT !.alg = "sha1"]}
+         [HonestSigner("A", "spc", "m1") EXCEPT !.unauth = "m2"], [HonestSigner("A", "spc", "m2") EXCEPT !.alg = "sha1"],
+         [HonestSigner("A", "spc", "m1") EXCEPT !.order = "dup_m2", !.sigOver = "attrs_canonical"],
+         [HonestSigner("A", "spc", "m2") EXCEPT !.order = "dup_m1", !.sigOver = "attrs_canonical"]}
 Cts == IF Tier = "q" THEN {"data", "spc"} ELSE {"data", "spc", "other"}
-Init == /\ done = FALSE /\ cert \in CertNames
-        /\ \/ /\ img = "-" /\ \E s \in Signers, ct \in Cts, co \in {"none", "m1", "m2"} : blob = [ct |-> ct, content |-> co, signers |-> <<s>>]
+E3Signers == {HonestSigner("E3", ct, m) : ct \in {"data", "spc"}, m \in {"m1", "m2"}}
+             \cup {[HonestSigner("E3", ct, m) EXCEPT !.sigKey = "forge_e3"] : ct \in {"data", "spc"}, m \in {"m1", "m2"}}
+Init == /\ done = FALSE /\ cert \in CertNames \cup {"E3"}
+        /\ \/ /\ img = "-" /\ cert = "E3" /\ \E s \in E3Signers, ct \in {"data", "spc"}, co \in {"none", "m1", "m2"} : blob = [ct |-> ct, content |-> co, signers |-> <<s>>]
+           \/ /\ img = "-" /\ \E s \in Signers, ct \in Cts, co \in {"none", "m1", "m2"} : blob = [ct |-> ct, content |-> co, signers |-> <<s>>]
+           \* an encapsulated content of length zero is a content (it is not "detached"): a signer info bound to other content does not cover it
+           \/ /\ img = "-" /\ \E s \in HonestBase \cup {x \in Signers0 : x.sigOver = "attrs_as_encoded" /\ x.order = "canonical"}, ct \in Cts :
+                    blob = [ct |-> ct, content |-> "empty", signers |-> <<s>>]
            \/ /\ img = "-" /\ \E s \in Pair, t \in Pair, co \in {"none", "m1", "m2"} : blob = [ct |-> "spc", content |-> co, signers |-> <<s, t>>]
            \/ /\ img \in {"I1", "I2"} /\ \E s \in Pair, co \in {"m1", "m2"} : blob = [ct |-> "spc", content |-> co, signers |-> <<s>>]
            \/ /\ img \in {"I1", "I2"} /\ \E s \in Pair, t \in Pair, co \in {"m1", "m2"} : blob = [ct |-> "spc", content |-> co, signers |-> <<s, t>>]
+        /\ (cert = "E3" => img = "-" /\ \A i \in 1..Len(blob.signers) : blob.signers[i] \in E3Signers)
 Next == ~done /\ done' = TRUE /\ UNCHANGED <<blob, cert, img>>
 Sound == NoOtherKey(blob, Cert(cert)) /\ ContentBound(blob, Cert(cert)) /\ TwinRejected(blob)
 ImgExpect == IF img = "-" THEN Expect(blob, Cert(cert))
